@@ -201,6 +201,11 @@ impl Inst {
         let (cas, pubs) = self.lists()?;
         let mut hist = BTreeMap::new();
         for ca in &cas {
+            // the TA and the testbed CA have a life of their own
+            // (background re-publication); their presence is still checked
+            if ca == "ta" || ca == "testbed" {
+                continue
+            }
             let h = self.adm_ok(
                 "GET", &format!("/api/v1/cas/{ca}/history/commands/1/0"), None
             )?.json().ok_or("bad history")?;
@@ -1203,19 +1208,4 @@ pub fn run(inp: &Path, out: &Path, work: &Path) -> i32 {
     }
     trace.finish();
     0
-}
-
-pub fn spike(work: &Path) {
-    common::refill_keys(0);
-    let opts = DaemonOpts {
-        testbed: true, admin_token: ADMIN_TOKEN.into(),
-        roles: vec![("loginrole".into(), RoleDef { none: vec!["login".into()], any: vec![], specific: vec![] })],
-        users: vec![], unix_users: vec![],
-    };
-    match Inst::start(&work.join("tb"), &opts) {
-        Ok(_) => eprintln!("ok"),
-        Err(e) => {
-            eprintln!("ERR {}", &e[..e.len().min(300)]);
-        }
-    }
 }
